@@ -397,6 +397,9 @@ _old_targets4 = targets
 
 def targets(tier='quick'):
     T = _old_targets4(tier)
+    # the time grid starts from the constructor's arguments: start_time / end_time reach the fields the grid contracts read
+    from . import prep
+    T += [t for t in prep.targets(PROP, lambda ob: {'func': 'api_time_grid', 'inputs': {'obligation': ob['name']}}) if t.name.startswith('api/')]
     RE = expect_registry()
     for with_op in (False, True):
         for real in (False, True):
